@@ -493,6 +493,8 @@ def domains(quick):
 MULTI = (('view', 'edit'), ('edit', 'delete'), ('view', 'edit', 'create', 'delete'))
 
 def work(item):
+    import time
+    t0 = time.time()
     E = env()
     sub = core.Sub()
     stats = defaultdict(int)
@@ -536,6 +538,7 @@ def work(item):
     for k, v in JSTAT.items(): sub.count(k, v)
     JSTAT.clear()
     sub.count('nontrivial_rule_sets', nontrivial)
+    sub.count('cpu_ms:' + fam, int((time.time() - t0) * 1000))
     sub.count('ordered_container_iterations', OrderedRules.iterations)
     OrderedRules.iterations = 0
     return sub.dump()
